@@ -52,6 +52,31 @@ Definition run_times (clk : positive) (nf : nat) (r : kstat) : jv :=
        jv_outcome jqss (per_cpu_times clk (nf_now c) c);
        (if wf_kstat nf r then JL [jqs (spec_cpu_times clk r); jqss (spec_per_cpu_times clk r)] else jnone) ].
 
+(* ---- machines larger than any read buffer: the record is GENERATED from a few numbers (CPU i has
+   counters base_j + i * step_j), printed by the kernel printer, and only sizes, a checksum of the
+   printed bytes and the rows at the sampled indices [idx] are shipped (wave 8) *)
+Definition cksum (c : bytes) : Z := fold_left (fun a b => (a * 131 + b) mod 2305843009213693951) c 0.
+Definition big_stat (total : list Z) (n : nat) (base step : list Z) : kstat :=
+  mk_stat total
+          (map (fun i => (Z.of_nat i, zipw (fun b s => b + Z.of_nat i * s) base step)) (seq 0 n))
+          [(0, [5; 1]); (1, [7])].
+(* [number of CPUs; rows at idx; every row is the generated one; len/all-zero of cpu_percent(percpu=True) and
+   cpu_times_percent(percpu=True) measured against a previous sample of the same file] *)
+Definition big_answer (rows : list (list Q)) (idx : list nat) (p : list Q) (tp : list (list Q)) : jv :=
+  JL [ JZ (Z.of_nat (length rows)); jqss (map (fun i => nth i rows []) idx); jbool true;
+       JZ (Z.of_nat (length p)); jbool (forallb qzero p);
+       JZ (Z.of_nat (length tp)); jbool (forallb (forallb qzero) tp) ].
+Definition run_big (clk : positive) (nf : nat) (total : list Z) (n : nat) (base step : list Z) (idx : list nat) : jv :=
+  let r := big_stat total n base step in
+  let c := k_stat r in
+  JL [ JZ (Z.of_nat (length c)); JZ (cksum c);
+       jv_outcome (fun rows => big_answer rows idx (zipw calc_percent rows rows) (zipw calc_times_percent rows rows))
+                  (per_cpu_times clk (nf_now c) c);
+       (if wf_kstat nf r then
+          let cr := cpu_rows r in
+          big_answer (spec_per_cpu_times clk r) idx (zipw spec_percent cr cr) (zipw spec_shares cr cr)
+        else jnone) ].
+
 (* arbitrary bytes: model only *)
 Definition run_times_raw (clk : positive) (content : bytes) : jv :=
   JL [ jv_outcome jqs (cpu_times clk (nf_now content) content);
